@@ -1123,7 +1123,50 @@ class C10(Check):
         v = self.verify_reply(who, case, rd, dumped, exp, efmt, rkeys, startdat3=sd3)
         if v:
             return v
+        # (d) interleaved access on ONE reader object: some vectors are already loaded (get / dates / get_at_rstep / an
+        #     earlier loadData(list), a list may name a vector twice) when loadData() / loadData(list) / get() follow;
+        #     whatever the order of the calls, every series must be the one that was written
+        pre = self.access_script(order, case["subset"])
+        for who2, cmd, pth, f2 in (("ESmry, interleaved access", "smry_read", path, fmt),
+                                   (who + ", interleaved access", "esmry_read", epath, efmt)):
+            rd, v = lib_read(who2, cmd=cmd, path=pth, base_run=False, pre=pre,
+                             load=["all", "list", "none"][case["subset"] % 3], list=sub, dump=allkeys, rstep_keys=rkeys)
+            if v:
+                return v
+            v = self.verify_reply(who2, case, rd, allkeys, exp, f2, rkeys, startdat3=sd3)
+            if v:
+                v["detail"] = {"access_before_dump": pre, "finding": v.get("detail")}
+                return v
+        ctx.label("interleaved-access-scripts")
         return None
+
+    @staticmethod
+    def access_script(order, salt):
+        """2..4 accesses drawn deterministically from the case's subset number"""
+        import hashlib
+
+        def h(*tag):
+            return int.from_bytes(hashlib.sha256(("%d|%s" % (salt, "|".join(map(str, tag)))).encode()).digest()[:4], "big")
+        n = len(order)
+        script = []
+        for j in range(2 + h("n") % 3):
+            kind = ["get", "dates", "rstep", "load_list", "load_list", "load_all"][h("k", j) % 6]
+            if kind in ("get", "rstep"):
+                script.append([kind, order[h("key", j) % n] if h("t", j) % 3 else "TIME"])
+            elif kind == "dates":
+                script.append(["dates"])
+            elif kind == "load_all":
+                if j + 1 < 2 + h("n") % 3:      # loading everything first leaves nothing interleaved: only as a later step
+                    script.append(["load_all"])
+                else:
+                    script.append(["get", order[h("key", j) % n]])
+            else:
+                m = 1 + h("m", j) % min(6, n)
+                ks = [order[h("lk", j, q) % n] for q in range(m)]
+                if h("rep", j) % 3 == 0:
+                    ks.append(ks[0])            # a vector named twice
+                script.append(["load_list", ks])
+        return script
 
     def read_digit_heap(self, case, ctx, path, sub, exp):
         from vlib.probe import Probe, ProbeCrash
